@@ -51,6 +51,8 @@ def op_line(op):
         return req('w.tract.config', str(op[1]), impl.enc_cfg(op[2]))
     if k == 'find_twprge':
         return req('w.find_twprge', enc_text(op[1]), enc_text(op[2]), enc_text(op[3]), enc_bool(op[4]), enc_bool(op[5]))
+    if k == 'from_twprgesec':
+        return req('w.from_twprgesec', impl.enc_arg(op[1]), impl.enc_arg(op[2]), impl.enc_arg(op[3]), enc_text(op[4]), enc_text(op[5]))
     raise ValueError(k)
 
 
@@ -103,6 +105,9 @@ class PyWorld:
             for a in list(d):
                 d[a] = 'MUTATED'
             return out
+        if k == 'from_twprgesec':
+            t = TRS.from_twprgesec(op[1], op[2], op[3], default_ns=op[4], default_ew=op[5])
+            return render({a: getattr(t, a) for a in impl.TRS_KEYS})
         if k == 'desc':
             _, i, text, layout, cfg, pq, src, wait = op
             d = pytrs.PLSSDesc(text, layout=layout, config=cfg, parse_qq=pq, source=src, wait_to_parse=wait)
